@@ -1,1 +1,479 @@
-// stub
+// C09 — Conductor accepts firm data only if >2/3 voting power committed the block.
+// Stage `quorum`: bounded-exhaustive enumeration of validator sets x commit-slot assignments
+// through the real `ensure_commit_has_quorum`. Stage `blobs` (see blobs_mc.rs) drives the
+// decode -> verify -> reconstruct pipeline.
+#![allow(clippy::all, clippy::pedantic, dead_code)]
+
+#[path = "/verif/engine/mod.rs"]
+pub(crate) mod engine;
+
+#[path = "/verif/harness/conductor/blobs_mc.rs"]
+mod blobs_mc;
+
+use std::collections::BTreeSet;
+
+use astria_core::crypto::SigningKey;
+use engine::{
+    json::J,
+    report::{
+        self,
+        catch_quiet,
+        Finding,
+        Report,
+        Tier,
+    },
+};
+use prost::Message as _;
+use sequencer_client::{
+    tendermint::{
+        self,
+        account,
+        block::{
+            Commit,
+            CommitSig,
+        },
+        validator,
+    },
+    tendermint_proto,
+    tendermint_rpc::endpoint::validators,
+};
+
+use super::ensure_commit_has_quorum;
+
+pub(crate) const CHAIN: &str = "verif-chain";
+pub(crate) const OTHER_CHAIN: &str = "other-chain";
+
+pub(crate) fn key(i: u8) -> SigningKey {
+    SigningKey::from([i.wrapping_mul(37).wrapping_add(11); 32])
+}
+
+pub(crate) fn tm_pub(k: &SigningKey) -> tendermint::PublicKey {
+    tendermint::PublicKey::from_raw_ed25519(k.verification_key().as_ref()).unwrap()
+}
+
+pub(crate) fn addr(k: &SigningKey) -> account::Id {
+    account::Id::from(tm_pub(k))
+}
+
+pub(crate) fn block_id(tag: u8) -> tendermint::block::Id {
+    tendermint::block::Id {
+        hash: tendermint::Hash::Sha256([tag; 32]),
+        part_set_header: tendermint::block::parts::Header::new(1, tendermint::Hash::Sha256([tag ^ 0xff; 32]))
+            .unwrap(),
+    }
+}
+
+pub(crate) fn sign_vote(
+    k: &SigningKey,
+    height: u32,
+    round: u16,
+    block: Option<tendermint::block::Id>,
+    chain: &str,
+    timestamp: tendermint::Time,
+) -> tendermint::Signature {
+    let canonical = tendermint::vote::CanonicalVote {
+        vote_type: tendermint::vote::Type::Precommit,
+        height: height.into(),
+        round: round.into(),
+        block_id: block,
+        timestamp: Some(timestamp),
+        chain_id: chain.parse().unwrap(),
+    };
+    let msg = tendermint_proto::types::CanonicalVote::from(canonical).encode_length_delimited_to_vec();
+    let sig = k.sign(&msg);
+    tendermint::Signature::try_from(sig.to_bytes().as_ref()).unwrap()
+}
+
+#[derive(Clone, Copy, Debug, PartialEq, Eq, PartialOrd, Ord)]
+pub(crate) enum Slot {
+    Absent,
+    Nil,
+    Valid,
+    SigByOtherKey,
+    SigOverOtherBlock,
+    SigOverOtherChain,
+    SigOverOtherHeight,
+    EmptySig,
+    DuplicateOfNext,
+    Outsider,
+}
+
+pub(crate) const SLOTS: &[Slot] = &[
+    Slot::Valid,
+    Slot::Absent,
+    Slot::Nil,
+    Slot::DuplicateOfNext,
+    Slot::SigByOtherKey,
+    Slot::SigOverOtherBlock,
+    Slot::SigOverOtherChain,
+    Slot::SigOverOtherHeight,
+    Slot::EmptySig,
+    Slot::Outsider,
+];
+
+pub(crate) struct Universe {
+    pub keys: Vec<SigningKey>,
+    pub outsider: SigningKey,
+    pub height: u32,
+    pub round: u16,
+    pub block: tendermint::block::Id,
+    pub time: tendermint::Time,
+    /// sigs[validator][kind]
+    valid: Vec<tendermint::Signature>,
+    nil: Vec<tendermint::Signature>,
+    other_block: Vec<tendermint::Signature>,
+    other_chain: Vec<tendermint::Signature>,
+    other_height: Vec<tendermint::Signature>,
+    outsider_valid: tendermint::Signature,
+}
+
+impl Universe {
+    pub(crate) fn new(n: usize, height: u32) -> Self {
+        Self::for_block(n, height, block_id(7))
+    }
+
+    pub(crate) fn for_block(n: usize, height: u32, block: tendermint::block::Id) -> Self {
+        let keys: Vec<SigningKey> = (0..n as u8).map(key).collect();
+        let outsider = key(200);
+        let time = tendermint::Time::from_unix_timestamp(1_700_000_000, 0).unwrap();
+        let round = 0;
+        let s = |k: &SigningKey, h: u32, b: Option<tendermint::block::Id>, c: &str| sign_vote(k, h, round, b, c, time);
+        Self {
+            valid: keys.iter().map(|k| s(k, height, Some(block), CHAIN)).collect(),
+            nil: keys.iter().map(|k| s(k, height, None, CHAIN)).collect(),
+            other_block: keys.iter().map(|k| s(k, height, Some(block_id(9)), CHAIN)).collect(),
+            other_chain: keys.iter().map(|k| s(k, height, Some(block), OTHER_CHAIN)).collect(),
+            other_height: keys.iter().map(|k| s(k, height + 1, Some(block), CHAIN)).collect(),
+            outsider_valid: s(&outsider, height, Some(block), CHAIN),
+            keys,
+            outsider,
+            height,
+            round,
+            block,
+            time,
+        }
+    }
+
+    pub(crate) fn validators(&self, powers: &[u64], at_height: u32) -> validators::Response {
+        let infos: Vec<validator::Info> = self
+            .keys
+            .iter()
+            .zip(powers)
+            .map(|(k, p)| validator::Info {
+                address: addr(k),
+                pub_key: tm_pub(k),
+                power: (*p).try_into().unwrap(),
+                proposer_priority: 0.into(),
+                name: None,
+            })
+            .collect();
+        let total = infos.len() as i32;
+        validators::Response::new(at_height.into(), infos, total)
+    }
+
+    pub(crate) fn commit(&self, slots: &[Slot]) -> Commit {
+        let n = self.keys.len();
+        let signatures = slots
+            .iter()
+            .enumerate()
+            .map(|(i, s)| {
+                let me = addr(&self.keys[i]);
+                let commit = |validator_address, signature| CommitSig::BlockIdFlagCommit {
+                    validator_address,
+                    timestamp: self.time,
+                    signature,
+                };
+                match s {
+                    Slot::Absent => CommitSig::BlockIdFlagAbsent,
+                    Slot::Nil => CommitSig::BlockIdFlagNil {
+                        validator_address: me,
+                        timestamp: self.time,
+                        signature: Some(self.nil[i].clone()),
+                    },
+                    Slot::Valid => commit(me, Some(self.valid[i].clone())),
+                    Slot::SigByOtherKey => commit(me, Some(self.valid[(i + 1) % n].clone())),
+                    Slot::SigOverOtherBlock => commit(me, Some(self.other_block[i].clone())),
+                    Slot::SigOverOtherChain => commit(me, Some(self.other_chain[i].clone())),
+                    Slot::SigOverOtherHeight => commit(me, Some(self.other_height[i].clone())),
+                    Slot::EmptySig => commit(me, None),
+                    Slot::DuplicateOfNext => {
+                        let j = (i + 1) % n;
+                        commit(addr(&self.keys[j]), Some(self.valid[j].clone()))
+                    }
+                    Slot::Outsider => commit(addr(&self.outsider), Some(self.outsider_valid.clone())),
+                }
+            })
+            .collect();
+        Commit {
+            height: self.height.into(),
+            round: self.round.into(),
+            block_id: self.block,
+            signatures,
+        }
+    }
+
+    /// Reference: distinct validators of the set with a valid signature for this block, height
+    /// and chain id somewhere in the commit.
+    pub(crate) fn reference_valid_set(&self, slots: &[Slot]) -> BTreeSet<usize> {
+        let n = self.keys.len();
+        let mut set = BTreeSet::new();
+        for (i, s) in slots.iter().enumerate() {
+            match s {
+                Slot::Valid => {
+                    set.insert(i);
+                }
+                Slot::DuplicateOfNext => {
+                    set.insert((i + 1) % n);
+                }
+                // n == 1: "other key" is the validator's own key, i.e. a valid signature
+                Slot::SigByOtherKey if n == 1 => {
+                    set.insert(i);
+                }
+                _ => {}
+            }
+        }
+        set
+    }
+}
+
+fn slots_json(slots: &[Slot]) -> J {
+    J::arr(slots.iter().map(|s| J::s(format!("{s:?}"))))
+}
+
+fn parse_slot(s: &str) -> Slot {
+    *SLOTS.iter().find(|x| format!("{x:?}") == s).expect("slot name")
+}
+
+struct QuorumCase {
+    powers: Vec<u64>,
+    slots: Vec<Slot>,
+    validator_set_height_offset: u32,
+}
+
+fn run_quorum_case(u: &Universe, case: &QuorumCase) -> Result<bool, (String, String)> {
+    let vals = u.validators(&case.powers, u.height + case.validator_set_height_offset);
+    let commit = u.commit(&case.slots);
+    let chain: tendermint::chain::Id = CHAIN.parse().unwrap();
+    catch_quiet(std::panic::AssertUnwindSafe(|| ensure_commit_has_quorum(&commit, &vals, &chain).is_ok()))
+}
+
+fn check_quorum_case(rep: &mut Report, u: &Universe, case: &QuorumCase) {
+    rep.add("evaluations", 1);
+    let accepted = match run_quorum_case(u, case) {
+        Ok(a) => a,
+        Err((msg, loc)) => {
+            rep.finding(Finding {
+                clause: "quorum-total".into(),
+                signature: format!("panic: {msg}"),
+                detail: format!("ensure_commit_has_quorum panicked at {loc}: {msg}"),
+                case: quorum_case_json(case),
+            });
+            return;
+        }
+    };
+    let valid = u.reference_valid_set(&case.slots);
+    let committed: u128 = valid.iter().map(|i| u128::from(case.powers[*i])).sum();
+    let total: u128 = case.powers.iter().map(|p| u128::from(*p)).sum();
+    let quorum = 3 * committed > 2 * total;
+    let all_valid = case.slots.iter().all(|s| *s == Slot::Valid);
+    let has_dup = case.slots.iter().any(|s| *s == Slot::DuplicateOfNext);
+    if accepted {
+        rep.add("accepted", 1);
+    }
+    if accepted && case.validator_set_height_offset != 0 {
+        rep.finding(Finding {
+            clause: "quorum-height".into(),
+            signature: "validator set of another height accepted".into(),
+            detail: format!("commit at height {} verified against the validator set of height {}", u.height, u.height + 1),
+            case: quorum_case_json(case),
+        });
+    } else if accepted && !quorum {
+        let signature = if has_dup && {
+            // would the tally without double counting have been below the code's own threshold?
+            let naive: u128 = case
+                .slots
+                .iter()
+                .enumerate()
+                .map(|(i, s)| match s {
+                    Slot::Valid => u128::from(case.powers[i]),
+                    Slot::DuplicateOfNext => u128::from(case.powers[(i + 1) % case.powers.len()]),
+                    _ => 0,
+                })
+                .sum();
+            naive != committed
+        } {
+            "duplicate commit slots counted more than once"
+        } else {
+            "accepted with distinct valid power <= 2/3 of total"
+        };
+        rep.finding(Finding {
+            clause: "quorum-threshold".into(),
+            signature: signature.into(),
+            detail: format!(
+                "accepted although distinct validators with valid signatures hold {committed} of {total} \
+                 (3*{committed} <= 2*{total}); powers={:?} slots={:?}",
+                case.powers, case.slots
+            ),
+            case: quorum_case_json(case),
+        });
+    } else if !accepted && all_valid && case.validator_set_height_offset == 0 {
+        rep.finding(Finding {
+            clause: "quorum-nonvacuous".into(),
+            signature: "honest full commit rejected".into(),
+            detail: format!("every validator signed validly, powers={:?}, yet the commit was rejected", case.powers),
+            case: quorum_case_json(case),
+        });
+    } else if rep.wants_sample() && accepted && case.slots.iter().any(|s| *s != Slot::Valid) {
+        rep.sample(quorum_case_json(case).with("accepted", J::Bool(true)));
+    }
+    if case.slots.iter().any(|s| *s == Slot::Valid) && !all_valid {
+        rep.add("distinct_nontrivial", 1);
+    }
+}
+
+fn quorum_case_json(case: &QuorumCase) -> J {
+    J::obj()
+        .with("kind", J::s("quorum"))
+        .with("powers", J::arr(case.powers.iter().map(|p| J::s(p.to_string()))))
+        .with("slots", slots_json(&case.slots))
+        .with("validator_set_height_offset", J::i(case.validator_set_height_offset))
+}
+
+fn enumerate_quorum(rep: &mut Report, thorough: bool) {
+    let power_alphabet: &[u64] = if thorough { &[1, 2, 3, 5] } else { &[1, 2, 3] };
+    let slot_alphabet: &[Slot] = if thorough { SLOTS } else { &SLOTS[..8] };
+    let max_n = 4usize;
+    // work list of (n, powers); each item enumerates all slot assignments
+    let mut work: Vec<Vec<u64>> = Vec::new();
+    for n in 1..=max_n {
+        let mut idx = vec![0usize; n];
+        loop {
+            work.push(idx.iter().map(|i| power_alphabet[*i]).collect());
+            let mut p = 0;
+            while p < n {
+                idx[p] += 1;
+                if idx[p] < power_alphabet.len() {
+                    break;
+                }
+                idx[p] = 0;
+                p += 1;
+            }
+            if p == n {
+                break;
+            }
+        }
+    }
+    // large-power singles and pairs: overflow / saturation boundaries of the tally
+    let big = [u64::MAX / 3, u64::MAX / 2, (i64::MAX as u64) / 2, i64::MAX as u64 - 1];
+    for b in big {
+        work.push(vec![b]);
+        work.push(vec![b, 1]);
+        work.push(vec![b, b / 2, 1]);
+    }
+    let universes: Vec<Universe> = (0..=max_n).map(|n| Universe::new(n.max(1), 10)).collect();
+    let next = std::sync::atomic::AtomicUsize::new(0);
+    let reports: std::sync::Mutex<Vec<Report>> = std::sync::Mutex::new(Vec::new());
+    std::thread::scope(|scope| {
+        for _ in 0..report::workers() {
+            scope.spawn(|| {
+                let mut local = Report::new("C09", "quorum");
+                loop {
+                    let i = next.fetch_add(1, std::sync::atomic::Ordering::Relaxed);
+                    if i >= work.len() {
+                        break;
+                    }
+                    let powers = &work[i];
+                    // tendermint's vote::Power is bounded by i64::MAX; totals beyond are rejected upstream
+                    if powers.iter().any(|p| *p > i64::MAX as u64) {
+                        continue;
+                    }
+                    let n = powers.len();
+                    let u = &universes[n];
+                    let mut idx = vec![0usize; n];
+                    loop {
+                        let slots: Vec<Slot> = idx.iter().map(|i| slot_alphabet[*i]).collect();
+                        let case = QuorumCase {
+                            powers: powers.clone(),
+                            slots,
+                            validator_set_height_offset: 0,
+                        };
+                        check_quorum_case(&mut local, u, &case);
+                        let mut p = 0;
+                        while p < n {
+                            idx[p] += 1;
+                            if idx[p] < slot_alphabet.len() {
+                                break;
+                            }
+                            idx[p] = 0;
+                            p += 1;
+                        }
+                        if p == n {
+                            break;
+                        }
+                    }
+                    // validator set fetched for another height
+                    let case = QuorumCase {
+                        powers: powers.clone(),
+                        slots: vec![Slot::Valid; n],
+                        validator_set_height_offset: 1,
+                    };
+                    check_quorum_case(&mut local, u, &case);
+                }
+                reports.lock().unwrap().push(local);
+            });
+        }
+    });
+    for r in reports.into_inner().unwrap() {
+        rep.absorb(r);
+    }
+    rep.set_extra("power_alphabet", J::arr(power_alphabet.iter().map(|p| J::i(*p))));
+    rep.set_extra("slot_alphabet", slots_json(slot_alphabet));
+    rep.set_extra("max_validators", J::i(max_n));
+}
+
+#[test]
+fn verif_c09_quorum() {
+    let mut rep = Report::new("C09", "quorum");
+    if let Some(case) = report::load_replay("C09", "quorum") {
+        let powers: Vec<u64> = case
+            .get("powers")
+            .and_then(J::as_arr)
+            .unwrap()
+            .iter()
+            .map(|p| p.as_str().unwrap().parse().unwrap())
+            .collect();
+        let slots: Vec<Slot> = case
+            .get("slots")
+            .and_then(J::as_arr)
+            .unwrap()
+            .iter()
+            .map(|s| parse_slot(s.as_str().unwrap()))
+            .collect();
+        let qc = QuorumCase {
+            validator_set_height_offset: case.get("validator_set_height_offset").and_then(J::as_int).unwrap_or(0) as u32,
+            powers,
+            slots,
+        };
+        let u = Universe::new(qc.powers.len(), 10);
+        let a = run_quorum_case(&u, &qc);
+        let b = run_quorum_case(&u, &qc);
+        assert_eq!(format!("{a:?}"), format!("{b:?}"), "uncontrolled nondeterminism");
+        println!("REPLAY accepted={a:?}");
+        check_quorum_case(&mut rep, &u, &qc);
+        rep.finish();
+        return;
+    }
+    let thorough = report::tier() == Tier::Thorough;
+    rep.rule(
+        "every validator set of 1..=4 validators with powers from the power alphabet (plus large-power \
+         boundary sets) x every assignment of a slot kind per validator from the slot alphabet \
+         (valid / absent / nil / duplicate of another validator's valid slot / signature by another key / \
+         over another block, chain id, height / empty / outsider), through the real ensure_commit_has_quorum; \
+         oracle: accepted => 3 x power(distinct validators with a valid signature) > 2 x total (u128), the honest \
+         full commit is accepted, a validator set of another height is rejected. distinct_nontrivial counts \
+         cases that are neither honest-full nor trivially below quorum in the same way.",
+    );
+    enumerate_quorum(&mut rep, thorough);
+    rep.assume("ed25519 signature verification (ed25519-consensus) is correct");
+    rep.finish();
+}
